@@ -195,6 +195,9 @@ def gen_plan(rng: Rng, tier: str, faulty: bool, profile: str = "loader",
                     {"kind": "read_eio", "path": victim, "open_k": fr.choice([None, 0, 1, 2]),
                      "call": fr.choice([0, 0, 1, 2, 5]),
                      "errno": fr.choice(["EIO", "EIO", "EIO", "ESTALE", "ETIMEDOUT", "EAGAIN", "EINTR"])})
+                if fr.chance(0.25):
+                    # not an I/O error at all: the buffer for the content cannot be allocated
+                    sess["env"]["faults"][-1]["exc"] = "MemoryError"
             elif kind == "fork_fail":
                 # process creation refused while the pool is built (process limit, memory for page tables)
                 sess["env"].setdefault("faults", []).append(
